@@ -50,6 +50,10 @@ def generate(seed: int, tier: str = "quick") -> dict:
     tr = common.draw_transport(r_sch, wire_len, spans, kinds=("file", "file", "socket"))
     if tr["kind"] == "socket":
         cfg["bufsize"] = r_sch.choice(sched.BUFSIZES)
+    elif r_sch.random() < 0.25:
+        # a stream that hands out at most `cap` bytes per call: frames larger than the cap are
+        # lost to "stream terminated" errors - under every mask alike
+        tr = {"kind": "capfile", "cap": r_sch.choice((3, 7, 16, 20, 21, 22, 24, 40, 64))}
     return {"seed": seed, "config": cfg, "frames": frames, "transport": tr, "style": style, "pre_faults": dict(pre)}
 
 
@@ -97,6 +101,8 @@ def _run(scn, res=None):
         if ref.items and not rejected:
             c.hit("all_accepted_wires")
         c.hit(scn["transport"]["kind"] + "_runs")
+        if scn["transport"]["kind"] == "capfile":
+            c.hit("fault_capped_read", ref.transport.capped_reads)
         c.hit("items_mask7", len(ref.items))
         res.log((wire, sorted(cfg0.items())), len(protos) >= 2 or nested or any(f.get("faults") for f in scn["frames"]))
     for parsing in (True, False):
